@@ -1,5 +1,5 @@
 import RQ.Driver.Proto
-import RQ.Model.Push
+import RQ.Spec.Push
 /-! Engine `W`: whole `push` invocations -/
 namespace RQ.PushEngine
 open RQ RQ.Proto RQ.Push
@@ -118,6 +118,28 @@ def c10 (invs impl : List String) : String :=
 def c15 (impl : List String) : String :=
   if impl.all (fun r => fieldOf r "twin" == "ok") then "ok" else "FAIL:twin-changed"
 
+/-- the mode of a zero-length quilt backup (a file that did not exist before the patch) is not specified:
+compare such entries without their mode -/
+def normTree (t : String) : String :=
+  ",".intercalate ((t.splitOn ",").map (fun e =>
+    match e.splitOn ":" with
+    | [p, _, c] => if c == "-" && p.startsWith "2e70632f" then s!"{p}:*:{c}" else e
+    | _ => e))
+
+/-- `pushSpec` evaluated against the implementation: starting from the tree the implementation left
+after the previous invocation, the exit status and the whole resulting tree must be what the
+specification says -/
+def specVerdict (fs0 : FS) (invs impl : List String) : String := Id.run do
+  let mut fs := fs0
+  for (a, r) in invs.zip impl do
+    let inv := parseArgs (if a == "-" then [] else a.splitOn " ") {}
+    let sp := Spec.pushSpec inv.cfg fs
+    let implTree := fieldOf r "tree"
+    if fieldOf r "exit" != toString sp.exit then return s!"FAIL:exit(spec={sp.exit})"
+    if implTree != renderTree sp.fs then return s!"FAIL:tree spectree={renderTree sp.fs}"
+    fs := parseTree implTree
+  return "ok"
+
 def step (fields : List String) : String :=
   match fields with
   | _ :: cid :: tree :: rest =>
@@ -127,7 +149,7 @@ def step (fields : List String) : String :=
     let eqs := (m.zip impl).map (fun (a, b) => dropSame a == dropSame b)
     let firstBad := (eqs.zipIdx.find? (fun (e, _) => !e)).map (·.2)
     let ok := m.length == impl.length && eqs.all (fun b => b)
-    s!"{cid} eq={boolS ok} firstbad={optNatS firstBad} C10={c10 invs impl} C15={c15 impl} model={"|".intercalate m}"
+    s!"{cid} eq={boolS ok} firstbad={optNatS firstBad} SPEC={specVerdict (parseTree tree) invs impl} C10={c10 invs impl} C15={c15 impl} model={"|".intercalate m}"
   | _ => "bad-line"
 
 end RQ.PushEngine
